@@ -85,7 +85,7 @@ def run(ctx):
                 ctx.check(same or f.point_of(sp)[0] not in reach, R1, '%s:to_utf#%d:%s-rebased-onto-transcoded-buffer' % (f.short, k, nm),
                           'after transcoding, the tokeniser still receives the original (still encoded) %s pointer' % nm, f.loc(t))
         # charset validation precedes tokenising whenever an encoding is configured
-        g_enc = f.gate_edges(lambda atom, pol, f=f: f.N(atom)['k'] == 'CXXMemberCallExpr' and q.short_of(f.callee(atom)) == 'empty' and pol is True and any(r.startswith('v:') for r in f.subtree_refs(atom)))
+        g_enc = q.empty_gate(f, lambda i, f=f: any(r.startswith('v:') for r in f.subtree_refs(i)))
         vcalls = [i for i in f.calls() if (f.bcallee(i) or '') in ('cppcms::encoding::valid', 'cppcms::encoding::validate_or_filter')]
         reach = f.reachable_blocks(cut_edges=g_enc, cut_blocks=q.blocks_of(f, vcalls), with_catch=False)
         ctx.check(bool(vcalls) and f.point_of(sp)[0] not in reach, R1, '%s:charset-validated-before-tokenising' % f.short, 'input of a configured encoding can reach the tokeniser without charset validation', f.loc(sp))
